@@ -185,6 +185,11 @@ def choices(r, bud, env):
         out.append(["persist"])
     if bud["rerun"] > 0 and wf in COMPLETED and not r.acts_inflight():
         out.append(["rerun", []])
+        if env.get("rerun_multi"):
+            failed = sorted({(e["id"], e["route"]) for e in r.c.workflow_state.sequence
+                             if e["id"] in r.d["tasks"] and e.get("status") in ("failed", "timeout", "abandoned")})
+            if len(failed) >= 2:
+                out.append(["rerun", [[t, rt, 0] for t, rt in reversed(failed)]])
         if env.get("rerun_tasks"):
             seen = set()
             for e in r.c.workflow_state.sequence:
